@@ -73,8 +73,8 @@ var funcRoles = []funcRole{
 	{"internal/model/core.binarySearch", "internal/model/core", "", []string{"internal/model.File]", "sequence.Seq"}, []string{"internal/model.File]"}, ""},
 	{"(*internal/usecase/core.UseCase).storeToTx", "internal/usecase/core", "", []string{"*internal/model/core.Transaction", "internal/model.File"}, nil, ""},
 	{"(*internal/usecase/core.UseCase).mergeFiles", "internal/usecase/core", "", []string{"[]internal/model.File", "[]internal/model.File"}, []string{"[]internal/model.File"}, ""},
-	{"(*internal/repository/file.Repo).key", "internal/repository/file", "Repo", []string{"string"}, []string{"[]byte"}, ""},
-	{"(*internal/repository/content_file.Repo).key", "internal/repository/content_file", "Repo", []string{"string"}, []string{"[]byte"}, ""},
+	{"(*internal/repository/file.Repo).key", "internal/repository/file", "", []string{"string"}, []string{"[]byte"}, ""},
+	{"(*internal/repository/content_file.Repo).key", "internal/repository/content_file", "", []string{"string"}, []string{"[]byte"}, ""},
 	// worker pool: exec runs the job's function, lazySend parks the job in the list, run receives from the job
 	// channel, lazyResend takes the single-flusher flag with TryLock
 	{Key: "(*internal/utils/wpool.Pool).exec", Pkg: "internal/utils/wpool", Params: []string{"...", "wpool.Event"}, Body: "sel:Fn"},
